@@ -50,11 +50,15 @@ OPERATORS['U+'] = wrap_ufunc(
 )
 
 
+def _empty_like(v):
+    return '' if isinstance(v, str) else False if isinstance(v, bool) else 0
+
+
 def logic_input_parser(x, y):
     if x is sh.EMPTY:
-        x = '' if isinstance(y, str) else 0
+        x = _empty_like(y)
     if y is sh.EMPTY:
-        y = '' if isinstance(x, str) else 0
+        y = _empty_like(x)
     return (_get_type_id(x), x), (_get_type_id(y), y)
 
 
